@@ -2,6 +2,9 @@
 package main
 
 import (
+	"sort"
+	"regexp"
+	"hash/fnv"
 	"fmt"
 	"go/ast"
 	"go/constant"
@@ -13,7 +16,42 @@ import (
 	"golang.org/x/tools/go/ssa"
 )
 
+// callsKind: ghost heap kind holding, at row 0, one counter per callee name —
+// the number of calls the function under verification has executed so far
+// ($calls_<name> in contracts is the difference to the entry state).
+const callsKind = "int@calls"
+
+func callsID(name string) int64 {
+	h := fnv.New32a()
+	h.Write([]byte(name))
+	return int64(h.Sum32())
+}
+
+func calleeDisplayName(c *ssa.CallCommon) string {
+	if b, ok := c.Value.(*ssa.Builtin); ok {
+		return b.Name()
+	}
+	if c.IsInvoke() {
+		return c.Method.Name()
+	}
+	if sc := c.StaticCallee(); sc != nil {
+		return sc.Name()
+	}
+	return ""
+}
+
+func (fr *Frame) countCall(x *ssa.Call) {
+	if fr.parent != nil || fr.reach == False {
+		return
+	}
+	if n := calleeDisplayName(&x.Call); n != "" {
+		id := IntLit(callsID(n))
+		fr.st.storeCell(callsKind, IntLit(0), id, Add(fr.st.loadCell(callsKind, IntLit(0), id), IntLit(1)))
+	}
+}
+
 func (fr *Frame) call(x *ssa.Call) {
+	fr.countCall(x)
 	c := &x.Call
 	if b, ok := c.Value.(*ssa.Builtin); ok {
 		fr.builtin(x, b)
@@ -315,6 +353,9 @@ func (fr *Frame) callContract(x ssa.Instruction, callee *ssa.Function, c *Contra
 	penv := cf.contractEnv(args, res, fr.st, pre)
 	var ens []*Term
 	for _, en := range c.Ensures {
+		if traceClause(en.Src) {
+			continue // trace clauses describe the callee's body; they are checked there and say nothing to callers
+		}
 		t, err := penv.evalBool(en.E)
 		if err != nil {
 			u.errs = append(u.errs, fmt.Sprintf("%s: ensures %s: %v (contract.attach)", en.Where, en.Src, err))
@@ -353,8 +394,23 @@ func (fr *Frame) havocTarget(env *Env, m Clause, x ssa.Instruction) (err error) 
 			panic(r)
 		}
 	}()
+	if m.Any != "" {
+		ks := anyFieldKinds(m.Any)
+		if len(ks) == 0 {
+			efail("no tagged heap kind for field %s (unknown field, or its address escapes)", m.Any)
+		}
+		for _, k := range ks {
+			fr.writeKinds = []string{k}
+			fr.checkWrite(x, Fresh("anyref", IntS), Fresh("anyoff", IntS), IntLit(1))
+			fr.writeKinds = nil
+			fr.st.H[k] = Fresh("H!"+baseKind(k), heapSort(k))
+		}
+		return nil
+	}
 	havocCellsK := func(ks []string, ref, off *Term) {
 		for i, k := range ks {
+			fr.writeKinds = []string{k}
+			defer func() { fr.writeKinds = nil }()
 			fr.checkWrite(x, ref, Add(off, IntLit(int64(i))), IntLit(1))
 			fr.st.storeCell(k, ref, Add(off, IntLit(int64(i))), Fresh("hv", kindSort(k)))
 		}
@@ -399,6 +455,13 @@ func (fr *Frame) havocTarget(env *Env, m Clause, x ssa.Instruction) (err error) 
 				j := BoundVar("k", IntS)
 				out := Or(Lt(j, v.Off), Ge(j, Add(v.Off, Mul(IntLit(sizeOf(el)), v.Len))))
 				fr.assume(Forall([]*Term{j}, Implies(out, Eq(Select(nr, j), Select(old, j)))))
+				// a target reached through a nil pointer (p.f[*] with p == nil) names no memory: nothing changes
+				if fs, ok := s.X.(*ESel); ok {
+					if pb := env.eval(fs.X); pb.K == CVal && pb.V.K == VPtr {
+						fr.st.setRow(k, v.Ref, Ite(Eq(pb.V.Ref, IntLit(0)), old, nr))
+						continue
+					}
+				}
 				fr.st.setRow(k, v.Ref, nr)
 			}
 			return nil
@@ -588,6 +651,9 @@ func (fr *Frame) callIfaceContract(x *ssa.Call, c *Contract, recv *Val, args []*
 	}
 	penv := mkEnv(res, fr.st, pre)
 	for _, en := range c.Ensures {
+		if traceClause(en.Src) {
+			continue
+		}
 		t, err := penv.evalBool(en.E)
 		if err != nil {
 			u.errs = append(u.errs, fmt.Sprintf("%s: ensures %s: %v", en.Where, en.Src, err))
@@ -1177,4 +1243,22 @@ func deadAfter(v ssa.Value, at ssa.Instruction) bool {
 		}
 	}
 	return true
+}
+
+var traceRe = regexp.MustCompile(`\$calls_|\$ret[0-9]*_|\$loc_`)
+
+// traceClause: the clause speaks about the calls made by the function's own body.
+func traceClause(src string) bool { return traceRe.MatchString(src) }
+
+// anyFieldKinds: the heap kinds private to struct field pkg.Type.field (non-empty only when the
+// field's cells live in their own tagged kinds, i.e. its address never escapes).
+func anyFieldKinds(key string) []string {
+	var out []string
+	for k := range kindsSeen {
+		if strings.HasSuffix(k, "@"+key) {
+			out = append(out, k)
+		}
+	}
+	sort.Strings(out)
+	return out
 }
